@@ -20,6 +20,9 @@ UNIT_TRUST = {
     "transaction": [IMBL, BCAST, STD, "R-MUTSELF: `fn commit(mut self)` => `fn commit(self) { let mut this = self; … }` (Verus has no `mut self`)", "R-PANIC on insert/set/remove/entry", "R-TRAIT: Drop::drop / Deref::deref of the entry types verified as inherent methods (a trait method cannot carry a precondition)", "vstd specs for Vec (push, clear, is_empty), mem::take (assume_specification)"],
     "entry": [IMBL, BCAST, STD, "R-TRAIT: Drop::drop / Deref::deref verified as inherent methods", "ObservableVector::set/remove appear with the clauses proved in unit `vector`"],
     "ops": [ITERS, SMALLVEC, "prelude/vecseq.rs: Vec stand-in (into_iter, is_empty, vec![x]) and SeqIt::flat_map / filter_map: the closure is applied to every item in order, results concatenated — ASSUMED", "R-TRAIT: `impl VectorDiffContainerOps<T> for X` methods verified as associated functions (receiver => parameter `this`), associated types replaced by the impl's own `type … = …;` lines", "R-WILD: `_` fn parameters named"],
+    "shared_async": ["prelude/arc.rs (Arc/Weak stand-ins, R-LOCK)", "prelude/rwlock_handles_tokio.rs: tokio::sync::RwLock under R-AWAIT + R-LOCK (lock free when requested) — ASSUMED", "state.rs functions with the contracts proved in unit `state` (//@viewof)", "contract text taken from unit `shared` (//@ like)", "R-AWAIT: `async fn` => `fn`, `.await` dropped"],
+    "unique_async": ["readlock_tokio::Shared stand-in (as in unit unique) — ASSUMED", "state.rs functions with the contracts proved in unit `state` (//@viewof)", "contract text taken from unit `unique` (//@ like)", "R-AWAIT"],
+    "esub_async": [TASK, "prelude/state_view.rs (caller view of state.rs, trusted to match unit state)", "ReusableBoxFuture / lock_owned / OwnedSharedReadGuard stand-ins: a completed acquisition hands out a guard on the protected state, a pending poll keeps the future armed and has registered the waker with the lock, `set` re-arms — ASSUMED (tokio-util, readlock-tokio)", "R-AWAIT"],
     "esub": [TASK, "prelude/state_view.rs: caller view of state.rs (&self receivers): the contracts proved in unit `state` with the final(self) clauses dropped and `registered(state, waker)` for the waker-list clause; readlock::SharedReadLock/SharedReadGuard transparent (cur()/target()) — TRUSTED TO MATCH unit state", "R-INST: L = SyncLock"],
     "shared": ["prelude/arc.rs: Arc/Weak as counted handles with DerefMut (R-LOCK: sequential execution; aliasing between handles not modelled) — ASSUMED", "prelude/rwlock_handles.rs: RwLock::read/write hand out &mut to the protected state (R-LOCK)", "state.rs functions appear with exactly the contracts proved in unit `state` (//@viewof)", "R-LOCK: &self receivers of the setters/getters => &mut self; R-INST: L = SyncLock; R-TRAIT: Drop as inherent method", "try_read/try_write not under contract; SUBSCRIBER_REFS = 1 copied by hand from lock.rs"],
     "unique": ["readlock::Shared stand-in (owns the state, counted read locks, DerefMut under R-LOCK) — ASSUMED", "state.rs functions with the contracts proved in unit `state` (//@viewof)", "R-LOCK: `this: &Self` of subscribe => `&mut Self`; R-INST: L = SyncLock; R-TRAIT: Drop as inherent method", "into_shared (ptr::read + mem::forget) is outside Verus: Kani + bounded"],
@@ -97,10 +100,10 @@ PROPS = {
         "Verus proves per diff variant that every prefix of the diffs handle_diff emits keeps the Head/Tail view within the limit (prefixes_bounded, proved equivalent to the for-all-prefixes statement), and that the constructors' initial values respect the bound. The glue is bounded (length checked after every single diff).",
         "stand-ins assumed; " + GLUE,
         VERUS + "; " + BND + " (glue)", [GLUE]),
-    "C16": P("exploration", [], ["obs-async", "obs-held"],
-        "Bounded so far: the same exhaustive handle histories as for C01-C03/C19 are run on the async-lock flavour (every future polled by hand; nothing ever has to wait in these histories) and compared with the same reference model as the sync flavour: same values, readiness, wake-ups, end of stream and counts.",
-        "bounded stand-in; lock waiting is covered by the held-guard scenarios (operations queued behind a write/read guard must be woken on release and take effect atomically in queue order)",
-        BND, [BOUNDED_NOTE]),
+    "C16": P("proof", ["shared_async", "unique_async", "esub_async"], ["obs-async", "obs-held"],
+        "Under await-erasure (R-AWAIT: histories in which the lock is free when requested) Verus proves that every async-lock method of SharedObservable and Observable satisfies THE SAME contract text as its sync twin (`//@ like`: the clauses are taken from the sync function's block, not re-typed), i.e. same results for the same calls; for the async subscriber: its reusable lock-acquisition future is re-armed on every path (struct invariant), next_now/next_ref_now/get/read behave as the sync ones, and poll_update/poll_next_nopin apply the same readiness rule to the state found under the lock, returning Pending only after the caller's waker was registered (with the state or with the lock). Lock waiting (writer woken on release, operations queued behind a guard taking effect atomically in queue order, subscriber polled under a write guard) and next()/next_ref() (poll_fn over a closure capturing &mut self) are bounded: obs-held, obs-async.",
+        "R-AWAIT erases lock waiting: tokio's fairness/wake-on-release are assumed and exercised by the bounded held-guard scenarios; ReusableBoxFuture/lock_owned stand-ins are assumed contracts",
+        VERUS + " (same contract text as the sync flavour, after await-erasure); " + BND + " (lock waiting)", [BOUNDED_NOTE, "next()/next_ref() of the async subscriber are bounded only"]),
     "C19": P("proof", ["shared", "unique"], ["obs-counts", "obs-async-counts"],
         "Verus proves over Arc/Weak handle stand-ins which handles every operation creates (clone: one on the state and one on the clone counter; subscribe*: one on the state only; downgrade/upgrade/from_inner accordingly) and that the count functions return strong(counter), (strong(state) - strong(counter)) / refs-per-subscriber, their sum and weak(state); the lemma over the abstract handle heap (count = number of live handles) carries this through every sequential history: observable_count = #clones, subscriber_count = #subscribers, strong_count = their sum. The async flavour (two references per subscriber) and into_shared are bounded.",
         "Arc's contract (strong count = live handles) and the handle abstraction are assumed; the per-flavour constant SUBSCRIBER_REFS is taken from lock.rs by hand (sync = 1); async flavour bounded only",
